@@ -25,10 +25,11 @@
 
 static const uint64_t STOP = ~0ULL;
 static uint64_t item(int p, uint64_t seq) { return ((uint64_t)p << 40) | seq; }
+static void on_alarm(int) {  printf("stalled hard limit: the program did not finish within 120 s of real time\nresult hung\n"); fflush(stdout); _exit(0); }
 static void on_segv(int s) { printf("result crashed signal=%d\n", s); fflush(stdout); _exit(0); }
 
 static int run_program(const std::vector<std::string>& lines) {
-    signal(SIGSEGV, on_segv); signal(SIGABRT, on_segv);
+    signal(SIGSEGV, on_segv); signal(SIGABRT, on_segv); signal(SIGALRM, on_alarm); alarm(120);
     set_log_output(log_output_null);
     size_t cap = 1; int P = 1, Cn = 1; uint64_t M = 1000, gap = 0; std::string endmode = "close";
     for (auto& l : lines) { std::istringstream is(l); std::string w; is >> w; if (w == "chan") { is >> cap >> P >> Cn >> M >> gap >> endmode; printf("%s\n", l.c_str()); } }
